@@ -1289,7 +1289,11 @@ def run(ck):
         'cell exists, no connected-but-ignored input pin, implOKB; resolve: no substitution removes anything; copied forks with a gap '
         'squeezed by the code repaired for D30 are included) - the harness '
         'counts the real cases inside these hypotheses (driver substok / resolveok) and checks the well-formedness of the real '
-        'result there; outside them the function after substitute / resolve_tlib_cells is validated by simulation before/after only',
+        'result there; substitute_sem_general / resolve_sem_general (index maps; ignored connected input pins, implementations without '
+        'designated cell, hosts well-formed up to trailing None, resolve through removing substitutions) hold under implGenOKB / '
+        'noSelfIgnB / resolveGenOKB, also counted (coverage keys *_general) with the conclusion wfNoTrail checked on the real result; '
+        'outside them (an implementation violating implGenOKB, a cell that is a port or a fork, a raising call) the function after '
+        'substitute / resolve_tlib_cells is validated by simulation before/after only',
         'the function is observed through the real LogicSim(m=2) (C01); reference of a circuit with library cells = the same '
         'circuit flattened by an independent inliner (implementation ports become forks, unconnected inputs read 0)',
         'object identity of nodes = (name, class) as in Node.__eq__; dictionary order of forks is an explicit input of the model']
